@@ -390,10 +390,7 @@ impl<K: KeyT, V: ValT> MapWorld<K, V> {
                 }
             }
             _ => {
-                if si == ti {
-                    rayon::sim::uninstall();
-                    return Ok(());
-                }
+                // (also of a map with itself: with a value that is not equal to itself both must say false)
                 let a = self.slots[si].map.as_ref().unwrap();
                 let b = self.slots[ti].map.as_ref().unwrap();
                 let out = self.ctx.call(op, || (a.par_eq(b), b.par_eq(a), a == b));
